@@ -481,7 +481,7 @@ class MinErrorFlow():
             self.edge_sol[edge] = (
                 round(edge_sol_dict[edge])
                 if self.weight_type == int
-                else float(edge_sol_dict[edge])
+                else max(0.0, float(edge_sol_dict[edge]))  # (a value like -1e-13 is the solver's 0 within its tolerance: the variable's lower bound is 0)
             )
 
         edge_error_sol_dict = self.solver.get_values(self.edge_error_vars)
